@@ -799,9 +799,6 @@ Proof.
 Qed.
 
 (* ---------- the evidence status is the election: at most TopValidatorCount stakers are active ---------- *)
-Definition active_in (vs : gmap Z VStat) (a : Z) : bool :=
-  match vs !! a with Some v => v_active v | None => false end.
-
 (* one queue entry: the status written for it is its election result, and an elected entry takes a slot *)
 Lemma elect_one_status : forall c mal h vs cnt q,
   let upd := (minPower c <=? q.2) && (cnt <? topN c) && negb (inb q.1 mal) in
@@ -841,4 +838,37 @@ Lemma standby_inactive : forall c mal h vs cnt q,
 Proof.
   intros c mal h vs cnt q H. destruct (elect_one_status c mal h vs cnt q) as (A & _). rewrite A.
   assert (cnt <? topN c = false) as -> by lia. rewrite andb_false_r. reflexivity.
+Qed.
+
+(* ---------- votes of validators that have left the active set ---------- *)
+Lemma count_active_all : forall vs ch votes, stale_votes vs votes = false ->
+  count_active_choice vs ch votes = count_choice ch votes.
+Proof.
+  intros vs ch votes H. unfold stale_votes in H. apply negb_false_iff in H.
+  unfold count_active_choice, count_choice. f_equal. f_equal.
+  induction votes as [|v votes IH]; [reflexivity|]. simpl in H. apply andb_true_iff in H. destruct H as [H1 H2].
+  rewrite !filter_cons. destruct (decide (v.2 = ch)) as [E|E].
+  - destruct (decide (v.2 = ch /\ active_in vs v.1 = true)) as [_|N]; [rewrite IH by exact H2; reflexivity|tauto].
+  - destruct (decide (v.2 = ch /\ active_in vs v.1 = true)) as [[N _]|_]; [tauto|apply IH; exact H2].
+Qed.
+
+(* verdict events, strict reading, outside the trigger: every verdict of an EndBlock is reached on
+   the votes of validators active after that block's election *)
+Lemma end_block_active_votes : forall c s q ord s' ev e,
+  end_block c s q ord = (s', ev) -> e ∈ ev ->
+  match e with
+  | EvVerdict id mal st yes no req active =>
+      exists r, reqs s !! id = Some r /\
+        (stale_votes (elect c s q).1 (r_votes r) = false ->
+         (st = GUILTY -> guilty_x c (count_active_choice (elect c s q).1 YES (r_votes r)) req = true) /\
+         (st = INNOCENT -> innocent_x c (count_active_choice (elect c s q).1 NO (r_votes r)) req = true))
+  | _ => True
+  end.
+Proof.
+  intros c s q ord s' ev e H Hin. apply end_block_sound in H. destruct H as (_ & F & _).
+  rewrite Forall_forall in F. specialize (F e Hin). destruct e; auto. simpl in F.
+  destruct F as (-> & -> & r & Hr & Hm & Hy & Hn & Hv). exists r. split; [exact Hr|].
+  intros Hs. rewrite !(count_active_all _ _ _ Hs). subst yes no. split.
+  - intros ->. destruct Hv as [[_ G]|[D _]]; [exact G|discriminate].
+  - intros ->. destruct Hv as [[D _]|[_ [_ I]]]; [discriminate|exact I].
 Qed.
